@@ -317,10 +317,14 @@ def run(ctx):
         'send_packet call, both sides triggering at once, one side triggering repeatedly, an unsolicited NEWKEYS at the '
         'end; (b) auto-pumped busy sessions (1-3 channels streaming both ways, exec opens, refused global requests, '
         'window-change requests, ticking clock, random re-chunking); (c) sessions against the independent MiniSSH peer '
-        '(both roles, exchanges started by either side, twice in a row, cipher changing between exchanges, old-key and '
-        'bare-NEWKEYS tails). non-trivial = at least two exchanges completed on some endpoint')
+        '(both roles, compression none / zlib / zlib@openssh.com, exchanges started by either side - asyncssh by its byte '
+        'limit or, with compression, its time limit - several in a row, cipher changing between exchanges; tails: packet '
+        'under the previous keys, bare NEWKEYS, second KEXINIT, KEXINIT in place of NEWKEYS). non-trivial = at least two exchanges completed on some endpoint')
     ctx.cov['trusted_base'] += [
-        'send side of the transport only (Model/Rekey.v); the receive path, negotiation, compression and the kex '
+        'compression: the model says WHICH context a payload goes through (a new one per NEWKEYS, C11_compress); that '
+        'the real contexts are new is judged by MiniSSH (a fresh inflate/deflate stream per exchange) decoding and being '
+        'decoded across re-keys; compressed sizes and the decompressor side are not modelled',
+        'send side of the transport only (Model/Rekey.v); the receive path, negotiation and the kex '
         'mathematics are not modelled; C11_order is about what the transport writes, end-to-end delivery of the '
         'application streams across re-keys is checked by the direct oracle on real sessions only',
         'hash function: a section variable without assumptions (theorems hold for every function); in the '
